@@ -47,6 +47,11 @@ def reduce_to_contemporaneous(ts):
     """
     samples = ts.samples()
     contmpr_samples = samples[ts.nodes_time[samples] == 0]
+    if len(ts.tables.edges.metadata) > 0:
+        # tskit cannot simplify edges that carry metadata; it is irrelevant here
+        tables = ts.dump_tables()
+        tables.edges.drop_metadata()
+        ts = tables.tree_sequence()
     return ts.simplify(
         contmpr_samples,
         map_nodes=True,
